@@ -239,7 +239,12 @@ func Run(ctx *core.Ctx) {
 		"only, very long, several field lines, the field's own degenerate forms; Proxy-Authorization: scheme only, scheme + blanks, blanks only, every padding shape of invalid " +
 		"base64, no colon, near misses of the valid value) x GET / POST / CONNECT x plain / TLS / intercepting listener x TCP server / handler variant x proxy instances started " +
 		"with --basic-auth and --credentials (so that the parsers run), plain ones and ones behind an upstream proxy; on the --basic-auth instances the decision is compared with " +
-		"Model.C12.authenticatedGo of the first field value (407 / 400 / 431 / close when it rejects, served when it accepts). Every case with a " +
+		"Model.C12.authenticatedGo of the first field value (407 / 400 / 431 / close when it rejects, served when it accepts); the DIAL PHASE as a lattice of time " +
+		"limits (lattice.go): an address that drops SYNs (the origin's, or that of an http / https / socks5 upstream proxy) x who gives up first (the dialer's DialTimeout " +
+		"after 1, 2 or 3 attempts with backoff; dialvia's ConnectTimeout during the first attempt, with 1 and 3 attempts, or during the second one; the client, which closes " +
+		"its connection while the dial hangs) x client CONNECT / plain / GET https:// / intercepted x TCP server / handler variant, limits of 250..450 ms, every instance with the " +
+		"forwarder.Dialer of NewHTTPTransport and connection tracking as command/run leaves it: 504 with X-Forwarder-Error (status and label compared with Model.C12.dialContext " +
+		"of the attempt outcomes), the same again on the same connection, the instance still serving afterwards. Every case with a " +
 		"fault, hostile input or scripted reply is non-trivial; distinct = distinct (kind, path, framing, fault point, FIN/RST, input / reply bytes)")
 	// the corpus: single cases as one batch (ids made distinct), recorded batches as they are
 	var corpus []*Case
@@ -264,7 +269,7 @@ func Run(ctx *core.Ctx) {
 		// development aid: run a slice of the generated cases (handler | host | a kind)
 		var sel []*Case
 		for _, c := range cases {
-			if (only == "handler" && c.Server == "handler") || (only == "host" && strings.HasPrefix(c.What, "host/")) || (only == "log" && c.LogMode != "") || (only == "field" && strings.HasPrefix(c.What, "field/")) || only == c.Kind {
+			if (only == "handler" && c.Server == "handler") || (only == "host" && strings.HasPrefix(c.What, "host/")) || (only == "log" && c.LogMode != "") || (only == "field" && strings.HasPrefix(c.What, "field/")) || (only == "lattice" && c.Kind == "dialtl") || only == c.Kind {
 				sel = append(sel, c)
 			}
 		}
@@ -288,7 +293,7 @@ func Run(ctx *core.Ctx) {
 	// interleave so that every batch mixes kinds (and the slow ones spread out)
 	nb := ctx.N(6, 12)
 	batches := make([][]*Case, nb)
-	var alone []*Case
+	var alone, lattice []*Case
 	for i, c := range cases {
 		if c.Kind == "label" {
 			batches[0] = append(batches[0], c) // the label proxy is used sequentially by one child
@@ -298,10 +303,17 @@ func Run(ctx *core.Ctx) {
 			alone = append(alone, c) // changes a limit of the whole process (accept.go)
 			continue
 		}
+		if c.Kind == "dialtl" {
+			lattice = append(lattice, c) // a batch of their own: they need proxy instances nobody else does (lattice.go)
+			continue
+		}
 		batches[i%nb] = append(batches[i%nb], c)
 	}
 	for _, c := range alone {
 		batches = append(batches, []*Case{c})
+	}
+	if len(lattice) > 0 {
+		batches = append(batches, lattice)
 	}
 	maxPer := 700
 	var wg sync.WaitGroup
